@@ -22,13 +22,28 @@ struct Obs {
 
 const N_REQ: usize = 24;
 
-fn run_instance(seed: Option<u64>, err_rate: f64, lat_rate: f64, min: u64, max: u64) -> Result<Vec<Obs>, String> {
+/// `settings_first`: latency settings and seed are given before the (type-changing)
+/// error_rate/error_fn calls instead of after them - the two equally seeded instances of
+/// every grid point are built in the two different orders.
+fn run_instance(seed: Option<u64>, err_rate: f64, lat_rate: f64, min: u64, max: u64, settings_first: bool) -> Result<Vec<Obs>, String> {
     let w = World::new(0, 10, Mode::Script, 1);
-    let mut b = ChaosLayer::builder().name("c19").error_rate(err_rate).error_fn(|_r: &Req| InnerErr { id: 4242, kind: 7 }).latency_rate(lat_rate).min_latency(Duration::from_millis(min)).max_latency(Duration::from_millis(max));
-    if let Some(s) = seed {
-        b = b.seed(s);
+    fn inject(_r: &Req) -> InnerErr {
+        InnerErr { id: 4242, kind: 7 }
     }
-    let layer = b.build();
+    let inject: fn(&Req) -> InnerErr = inject;
+    let layer = if settings_first {
+        let mut b = ChaosLayer::builder().name("c19").latency_rate(lat_rate).min_latency(Duration::from_millis(min)).max_latency(Duration::from_millis(max));
+        if let Some(s) = seed {
+            b = b.seed(s);
+        }
+        b.error_rate(err_rate).error_fn(inject).build()
+    } else {
+        let mut b = ChaosLayer::builder().name("c19").error_rate(err_rate).error_fn(inject).latency_rate(lat_rate).min_latency(Duration::from_millis(min)).max_latency(Duration::from_millis(max));
+        if let Some(s) = seed {
+            b = b.seed(s);
+        }
+        b.build()
+    };
     let mut svc = layer.layer(GatedInner::new(w.inner.clone()));
     let mut out = vec![];
     for i in 0..N_REQ {
@@ -95,8 +110,8 @@ fn main() {
             for lr in [0.0, 0.5, 1.0] {
                 for (min, max) in ranges {
                     let cfg = format!("seed={seed} error_rate={er} latency_rate={lr} latency=[{min},{max}]ms");
-                    let a = run_instance(Some(seed), er, lr, min, max);
-                    let b = run_instance(Some(seed), er, lr, min, max);
+                    let a = run_instance(Some(seed), er, lr, min, max, false);
+                    let b = run_instance(Some(seed), er, lr, min, max, true);
                     rep.evaluations += 2 * N_REQ as u64;
                     let (a, b) = match (a, b) {
                         (Ok(a), Ok(b)) => (a, b),
@@ -151,8 +166,8 @@ fn main() {
         }
     }
     // different seeds should not all coincide (vacuity guard for the seed plumbing)
-    let x = run_instance(Some(1), 0.3, 0.5, 5, 20);
-    let y = run_instance(Some(2), 0.3, 0.5, 5, 20);
+    let x = run_instance(Some(1), 0.3, 0.5, 5, 20, false);
+    let y = run_instance(Some(2), 0.3, 0.5, 5, 20, false);
     if let (Ok(x), Ok(y)) = (&x, &y) {
         if x != y {
             rep.witness("different_seeds_differ", 1);
